@@ -3,9 +3,14 @@ CONSTANT Pushers = {1, 2}
 CONSTANT Poppers = {3, 4}
 CONSTANT NLanes = 2
 CONSTANT PushN <- PN1
+CONSTANT Specifics = {}
+CONSTANT SpecN = 0
+CONSTANT Tag <- TagN
+CONSTANT Accessor = "front"
 CONSTANT PopN = 1
 INVARIANT NoDup
 INVARIANT NoStrand
 INVARIANT NoLoss
 INVARIANT OnlyPushed
+INVARIANT RightTag
 CHECK_DEADLOCK FALSE
